@@ -238,6 +238,7 @@ pub fn run(ctx: &Ctx) -> Report {
      plus interference runs (another process creates the output file after the existence check, while imdl is still reading standard input; with and without --force) and verify/show/link frames; all cases non-trivial; distinct by configuration",
   );
   report.exhaustive = ctx.replay.is_none();
+  report.rule.push_str("; plus eighteen further states and spellings (empty file at the output, output through a linked directory then `..`, sibling .tmp files under --force, trailing slash / `/.` on a directory input, link cycles, links as the root, explicit outputs without the .torrent extension, --name deciding the default output, ...)");
   report.correspondences.push("C09.create: file-system effect and exit status of `imdl torrent create` = Imdlv.CreateFx.decision".into());
   let mut cfgs = Vec::new();
   for force in [false, true] {
